@@ -29,6 +29,27 @@ Fixpoint positions_from (a : N) (ops : list N) (i : N) : list N :=
   end.
 Definition positions (a : N) (ops : list N) : list N := positions_from a ops 0.
 
+(* the [members] field: operator address -> positions, as NewMembershipValidator fills it
+   (one append per seat, in seat order); an association list stands for the Go map *)
+Definition members := list (N * list N).
+Fixpoint members_append (a p : N) (m : members) : members :=
+  match m with
+  | [] => [(a, [p])]                                     (* members[a] = []int{position} *)
+  | (b, ps) :: t => if b =? a then (b, ps ++ [p]) :: t   (* append(positions, position) *)
+                    else (b, ps) :: members_append a p t
+  end.
+Fixpoint members_from (ops : list N) (i : N) (m : members) : members :=
+  match ops with
+  | [] => m
+  | o :: t => members_from t (i + 1) (members_append o i m)
+  end.
+Definition new_validator (ops : list N) : members := members_from ops 0 [].
+Fixpoint members_get (a : N) (m : members) : option (list N) :=
+  match m with
+  | [] => None
+  | (b, ps) :: t => if b =? a then Some ps else members_get a t
+  end.
+
 (* ---------- group.Group ---------- *)
 Record grp := { g_size : N; g_ia : list N; g_dq : list N }.
 (* NewGroup: memberIndexes[i] = MemberIndex(i+1), a uint8 *)
@@ -101,6 +122,22 @@ Section Admission.
     match positions (addr_of key) ops with
     | [] => false                                         (* !isInGroup *)
     | ps => existsb (N.eqb (wrap_pred idx)) ps
+    end.
+
+  (* the validator as the OBJECT every protocol step shares between the member goroutines of
+     one operator: the members map is built once by NewMembershipValidator; a call reads the
+     map and the oracle and leaves the object as it was (no field is written) *)
+  Definition validator_call (mv : members) (idx key : N) : members * bool :=
+    (mv, match members_get (addr_of key) mv with
+         | None => false                                    (* !isInGroup *)
+         | Some ps => existsb (N.eqb (wrap_pred idx)) ps
+         end).
+  (* a history of calls (claimed index, sender key) on one validator: the answers in order *)
+  Fixpoint validator_run (mv : members) (calls : list (N * N)) : list bool :=
+    match calls with
+    | [] => []
+    | (idx, key) :: t =>
+        let (mv', b) := validator_call mv idx key in b :: validator_run mv' t
     end.
 
   (* shouldAcceptMessage: the six definitions are textually the same function *)
@@ -247,11 +284,71 @@ Definition spec_ok (s : step) (x : ctx) (m : msg) (a : N) (o : outcome) : bool :
 Record msg_case := { c_step : step; c_ctx : ctx; c_msg : msg;
                      c_addr : N;          (* PublicKeyBytesToAddress(sender key), by the real signer *)
                      c_obs : outcome }.   (* what the implementation did with the message *)
+(* --- histories on ONE shared MembershipValidator ("the validator has no memory") ---
+   one entry = one (claimed index, sender key) pair validated [v_acc + v_rej] times on the
+   shared validator: [v_acc] answers true, [v_rej] answers false.  Sequential histories: one call
+   per entry, in call order.  Concurrent histories: one entry per goroutine, all goroutines
+   hammering the same validator at the same time. *)
+Record vcall := { v_idx : N; v_key : N; v_acc : N; v_rej : N }.
+Record hist_case := { h_conc : bool;
+                      h_ops : list N;          (* operator address of every seat *)
+                      h_tab : list (N * N);    (* sender key -> address, by the real signer on a
+                                                  private copy of the key *)
+                      h_calls : list vcall }.
+(* --- a history of messages delivered to ONE receiving state (with its one validator) --- *)
+Record run_case := { r_step : step; r_ctx : ctx; r_tab : list (N * N);
+                     r_msgs : list (msg * outcome) }.   (* message, what the state did with it *)
+
+Definition tab_addr (tab : list (N * N)) (k : N) : N :=
+  match find (fun p => fst p =? k) tab with Some p => snd p | None => 0 end.
+Definition tab_has (tab : list (N * N)) (k : N) : bool := existsb (fun p => fst p =? k) tab.
+
+(* the model's answers for a history: the validator object run over the calls *)
+Definition hist_model (h : hist_case) : list bool :=
+  validator_run (tab_addr (h_tab h)) (new_validator (h_ops h))
+                (map (fun c => (v_idx c, v_key c)) (h_calls h)).
+(* no call ever accepts an index whose seat is not held by the operator of the key *)
+Definition hist_spec_ok (ops : list N) (tab : list (N * N)) (calls : list vcall) : bool :=
+  forallb (fun c => (v_acc c =? 0) || holds_index_b ops (v_idx c) (tab_addr tab (v_key c))) calls.
+(* every single answer is the model's answer *)
+Fixpoint hist_agree (answers : list bool) (calls : list vcall) : bool :=
+  match answers, calls with
+  | [], [] => true
+  | b :: ta, c :: tc => (if b then v_rej c =? 0 else v_acc c =? 0) && hist_agree ta tc
+  | _, _ => false
+  end.
+Definition hist_well_formed (h : hist_case) : bool :=
+  (length (h_ops h) <=? 255)%nat
+  && match h_calls h with [] => false | _ => true end
+  && forallb (fun c => (v_idx c <? 256) && tab_has (h_tab h) (v_key c)
+                       && (1 <=? v_acc c + v_rej c)
+                       && (h_conc h || (v_acc c + v_rej c =? 1))) (h_calls h).
+
+Definition run_model (r : run_case) : list (msg * outcome) :=
+  run (tab_addr (r_tab r)) (r_step r) (r_ctx r) (map fst (r_msgs r)).
+Definition run_spec_ok (r : run_case) : bool :=
+  forallb (fun mo => spec_ok (r_step r) (r_ctx r) (fst mo) (tab_addr (r_tab r) (m_key (fst mo))) (snd mo))
+          (r_msgs r).
+Fixpoint run_agree (model obs : list (msg * outcome)) : bool :=
+  match model, obs with
+  | [], [] => true
+  | (_, o) :: tm, (_, o') :: to => outcome_eqb o o' && run_agree tm to
+  | _, _ => false
+  end.
+Definition run_well_formed (r : run_case) : bool :=
+  (length (x_ops (r_ctx r)) <=? 255)%nat
+  && match x_self (r_ctx r) with [] => false | _ => true end
+  && match r_msgs r with [] => false | _ => true end
+  && forallb (fun mo => (m_idx (fst mo) <? 256) && tab_has (r_tab r) (m_key (fst mo))
+                        && negb (outcome_eqb (snd mo) Malformed)) (r_msgs r).
+
 Inductive case :=
   | CMsg (c : msg_case)
   (* call sites of shouldAcceptMessage / IsValidMembership found in the source tree that the
      driver's table does not know, and table entries that no longer exist *)
-  | CSites (unknown missing : N).
+  | CSites (unknown missing : N)
+  | CHist (h : hist_case)
+  | CRun (r : run_case).
 
 Definition well_formed (c : msg_case) : bool :=
   (m_idx (c_msg c) <? 256) && (length (x_ops (c_ctx c)) <=? 255)%nat
@@ -272,10 +369,20 @@ Definition judge (c : case) : verdict :=
       end
   | CSites unknown missing =>
       if (unknown =? 0) && (missing =? 0) then Agree else Mismatch
+  | CHist h =>
+      if negb (hist_well_formed h) then BadCase else
+      decide (hist_spec_ok (h_ops h) (h_tab h) (h_calls h)) (hist_agree (hist_model h) (h_calls h))
+  | CRun r =>
+      if negb (run_well_formed r) then BadCase else
+      if existsb (fun mo => outcome_eqb (snd mo) Malformed) (run_model r) then BadCase else
+      decide (run_spec_ok r) (run_agree (run_model r) (r_msgs r))
   end.
 
-Definition explain (c : case) : outcome :=
+(* what --replay prints: the model's own outcomes / validator answers *)
+Definition explain (c : case) : list outcome * list bool :=
   match c with
-  | CMsg c => model_outcome c
-  | CSites _ _ => Ignored
+  | CMsg c => ([model_outcome c], [])
+  | CSites _ _ => ([], [])
+  | CHist h => ([], hist_model h)
+  | CRun r => (map snd (run_model r), [])
   end.
